@@ -2,6 +2,7 @@
 package main
 
 import (
+	"bytes"
 	"context"
 	"errors"
 	"fmt"
@@ -13,6 +14,7 @@ import (
 	"time"
 
 	"github.com/cenkalti/backoff"
+	"github.com/pierrec/lz4/v4"
 	"github.com/spf13/viper"
 	"github.com/tilinna/clock"
 	"google.golang.org/protobuf/proto"
@@ -38,10 +40,19 @@ type cfg struct {
 	Failures int  // failure budget of the upstream
 	BadUTF8  bool // dispatcher 0 sends a tag with invalid UTF-8
 	Ticks    int
+	Compress bool // compressed bodies
+	PerBatch int  // counters per dispatched batch (default 1), each with its own region tag when DynHdr
+}
+
+func (c cfg) per() int {
+	if c.PerBatch < 1 {
+		return 1
+	}
+	return c.PerBatch
 }
 
 func (c cfg) String() string {
-	return fmt.Sprintf("D%d-B%d-s%d-m%d-r%d-el%v-dyn%v-f%d-bad%v-t%d", c.D, c.Batches, c.Slots, c.Merge, c.MaxReq, c.Elapsed, c.DynHdr, c.Failures, c.BadUTF8, c.Ticks)
+	return fmt.Sprintf("D%d-B%d-s%d-m%d-r%d-el%v-dyn%v-f%d-bad%v-t%d-z%v", c.D, c.Batches, c.Slots, c.Merge, c.MaxReq, c.Elapsed, c.DynHdr, c.Failures, c.BadUTF8, c.Ticks, c.Compress)
 }
 
 type attempt struct {
@@ -76,6 +87,13 @@ type upstream struct{ r *run }
 func (u upstream) RoundTrip(req *http.Request) (*http.Response, error) {
 	raw, _ := io.ReadAll(req.Body)
 	req.Body.Close()
+	if req.Header.Get("Content-Encoding") == "lz4" {
+		dec, err := io.ReadAll(lz4.NewReader(bytes.NewReader(raw)))
+		if err != nil {
+			u.r.fail("undecodable-body", "upstream received a body that does not decompress: "+err.Error())
+		}
+		raw = dec
+	}
 	var msg pb.RawMessageV2
 	if err := proto.Unmarshal(raw, &msg); err != nil {
 		u.r.fail("undecodable-body", "upstream received a body that does not decode: "+err.Error())
@@ -108,11 +126,11 @@ func (u upstream) RoundTrip(req *http.Request) (*http.Response, error) {
 	return &http.Response{StatusCode: 202, Status: "202", Header: http.Header{}, Body: io.NopCloser(strings.NewReader("")), Request: req}, nil
 }
 
-func dpName(d, b int) string { return fmt.Sprintf("d%db%d", d, b) }
+func dpName(d, b, k int) string { return fmt.Sprintf("d%db%dk%d", d, b, k) }
 
 func body(c cfg, r *run) func(*vsched.Exec) {
 	return func(x *vsched.Exec) {
-		*r = run{c: c, failsLeft: c.Failures, returned: make([]int, c.D*c.Batches), obj: new(int)}
+		*r = run{c: c, failsLeft: c.Failures, returned: make([]int, c.D*c.Batches*c.per()), obj: new(int)}
 		ctx, mock := fx.NewClock(context.Background())
 		r.mock = mock
 		w := vsched.EnvGet("clock").(clock.Clock)
@@ -127,7 +145,7 @@ func body(c cfg, r *run) func(*vsched.Exec) {
 		if c.DynHdr {
 			dyn = []string{"region"}
 		}
-		h, err := statsd.NewHttpForwarderHandlerV2(fx.Quiet(), "default", "http://up.invalid", c.Slots, c.MaxReq, c.Merge, false, "zlib", 0, c.Elapsed, time.Second, nil, dyn, pool, nil)
+		h, err := statsd.NewHttpForwarderHandlerV2(fx.Quiet(), "default", "http://up.invalid", c.Slots, c.MaxReq, c.Merge, c.Compress, "lz4", 0, c.Elapsed, time.Second, nil, dyn, pool, nil)
 		if err != nil {
 			panic(err)
 		}
@@ -139,17 +157,21 @@ func body(c cfg, r *run) func(*vsched.Exec) {
 			vsched.GoNamed(fmt.Sprintf("dispatcher%d", d), func() {
 				for b := 0; b < c.Batches; b++ {
 					mm := gostatsd.NewMetricMap(false)
-					tags := gostatsd.Tags{}
-					if c.DynHdr {
-						tags = append(tags, []string{"region:us", "region:eu", "other:x"}[(d+b)%3])
+					for k := 0; k < c.per(); k++ {
+						tags := gostatsd.Tags{}
+						if c.DynHdr {
+							tags = append(tags, []string{"region:us", "region:eu", "other:x"}[(d+b+k)%3])
+						}
+						if c.BadUTF8 && d == 0 {
+							tags = append(tags, "bad:\xff\xfe")
+						}
+						mm.Receive(&gostatsd.Metric{Name: dpName(d, b, k), Type: gostatsd.COUNTER, Value: float64(1 + d*10 + b), Rate: 1, Tags: tags, Timestamp: 5})
 					}
-					if c.BadUTF8 && d == 0 {
-						tags = append(tags, "bad:\xff\xfe")
-					}
-					mm.Receive(&gostatsd.Metric{Name: dpName(d, b), Type: gostatsd.COUNTER, Value: float64(1 + d*10 + b), Rate: 1, Tags: tags, Timestamp: 5})
 					h.DispatchMetricMap(ctx, mm)
 					vsched.Access(r.obj, true, "dispatch-returned")
-					r.returned[d*c.Batches+b] = r.ticksDone + 1
+					for k := 0; k < c.per(); k++ {
+						r.returned[(d*c.Batches+b)*c.per()+k] = r.ticksDone + 1
+					}
 				}
 			})
 		}
@@ -201,7 +223,7 @@ func (r *run) checkDelivered(t int) {
 		if ret == 0 || ret > t {
 			continue
 		}
-		name := dpName(id/r.c.Batches, id%r.c.Batches)
+		name := dpName(id/r.c.per()/r.c.Batches, id/r.c.per()%r.c.Batches, id%r.c.per())
 		bodies := map[string]bool{}
 		for _, a := range r.attempts {
 			for _, n := range a.names {
@@ -212,7 +234,7 @@ func (r *run) checkDelivered(t int) {
 		}
 		if len(bodies) == 0 {
 			if r.c.BadUTF8 {
-				r.fail("lost-with-invalid-utf8 "+fmt.Sprint(id/r.c.Batches == 0), fmt.Sprintf("datapoint %s (dispatch returned before tick %d) was never sent: a tag with invalid UTF-8 in the same flush made the whole merged batch unserialisable", name, t))
+				r.fail("lost-with-invalid-utf8 "+fmt.Sprint(id/r.c.per()/r.c.Batches == 0), fmt.Sprintf("datapoint %s (dispatch returned before tick %d) was never sent: a tag with invalid UTF-8 in the same flush made the whole merged batch unserialisable", name, t))
 			} else {
 				r.fail("datapoint-not-sent", fmt.Sprintf("datapoint %s: its dispatch returned before tick %d but no request body contains it after that flush completed", name, t))
 			}
@@ -303,9 +325,9 @@ func check(c cfg, r *run, outcomes map[string]struct{}) func(*vsched.Exec, vsche
 		if c.DynHdr {
 			for _, a := range r.attempts {
 				for _, n := range a.names {
-					var d, b int
-					fmt.Sscanf(n, "d%db%d", &d, &b)
-					want := []string{"us", "eu", ""}[(d+b)%3]
+					var d, b, k int
+					fmt.Sscanf(n, "d%db%dk%d", &d, &b, &k)
+					want := []string{"us", "eu", ""}[(d+b+k)%3]
 					if a.region != want {
 						return "wrong-dynamic-header", fmt.Sprintf("series %s travelled in a request with header region=%q, want %q", n, a.region, want)
 					}
@@ -345,6 +367,8 @@ func configs() []cfg {
 		{D: 1, Batches: 2, Slots: 1, Merge: 1, MaxReq: 1, Elapsed: 3 * time.Second, Failures: 5, Ticks: 1},
 		{D: 2, Batches: 1, Slots: 2, Merge: 1, MaxReq: 2, Elapsed: 3 * time.Second, DynHdr: true, Failures: 0, Ticks: 2},
 		{D: 2, Batches: 1, Slots: 1, Merge: 1, MaxReq: 1, Elapsed: 3 * time.Second, BadUTF8: true, Failures: 0, Ticks: 2},
+		// two compressed bodies of one flush in flight together, one of them retried
+		{D: 1, Batches: 1, PerBatch: 2, Slots: 1, Merge: 1, MaxReq: 2, Elapsed: 3 * time.Second, DynHdr: true, Failures: 1, Ticks: 1, Compress: true},
 	}
 	if vrt.Thorough() {
 		cs = append(cs,
